@@ -186,14 +186,17 @@ fn run_qs(cap: usize, blocked: usize, ops: &str) -> String {
                             }
                             eq.extend_from_slice(&e.encoder_stream);
                             secs.push((sid, e.block.clone(), false));
+                            let wire = |w: &[u8]| if w.is_empty() { "-".to_string() } else { hx(w) };
                             format!(
-                                "E:{}:{}.{}.{}:{}:{}:{}",
+                                "E:{}:{}.{}.{}:{}:{}:{}:{}:{}",
                                 e.required_ref,
                                 b.encoded_insert_count,
                                 b.sign_negative as u8,
                                 b.delta_base,
                                 joinor(";", b.reps.iter().map(repstr).collect()),
                                 joinor(";", ins.iter().map(|(i, _)| instrstr(i)).collect()),
+                                wire(&e.block),
+                                wire(&e.encoder_stream),
                                 estate(&enc.snapshot())
                             )
                         }
